@@ -440,6 +440,12 @@ class Recorder:
         fcm.open = fake_open
         fcm.os = fos
         self.fcm = fcm
+        # the store module itself (KeyValueStorage.__init__ may touch the file system when a store is opened)
+        import klongpy.db.sys_fn_kvs as kvm
+        self.kvm = kvm
+        self._saved_kvm = (kvm.__dict__.get("os", None), kvm.__dict__.get("open", None))
+        kvm.os = fos
+        kvm.open = fake_open
 
     def uninstall(self):
         saved_open, saved_os = self._saved
@@ -448,6 +454,12 @@ class Recorder:
         else:
             self.fcm.open = saved_open
         self.fcm.os = saved_os
+        kos, kopen = self._saved_kvm
+        for name, val in (("os", kos), ("open", kopen)):
+            if val is None:
+                self.kvm.__dict__.pop(name, None)
+            else:
+                setattr(self.kvm, name, val)
 
 
 def listing(root):
@@ -571,9 +583,11 @@ def parse_image(s):
 
 
 def ghost(ops):
-    """completed sets (last value per key, as pickled hex) and the key in progress, from begin/ret markers"""
+    """completed sets (last value per key, as pickled hex), the key in progress and the dirty keys (interrupted
+    by a process kill, not rewritten by a completed set since), from the begin/ret/kill markers"""
     cur, done = None, {}
     HISTORY.clear()
+    DIRTY.clear()
     for o in ops:
         if o.startswith("begin:"):
             _, k, v = o.split(":")
@@ -581,10 +595,16 @@ def ghost(ops):
         elif o == "ret" and cur is not None:
             HISTORY.setdefault(cur[0], []).append(cur[1])
             done[cur[0]] = cur[1]
+            DIRTY.discard(cur[0])
+            cur = None
+        elif o == "kill":
+            if cur is not None:
+                DIRTY.add(cur[0])
             cur = None
     return (cur[0] if cur else None), done
 
 
+DIRTY = set()     # filled by ghost()
 HISTORY = {}      # key -> all completed values (pickled hex), oldest first; filled by ghost()
 
 
@@ -756,31 +776,49 @@ def py_sample_images(ops, rng, n):
     return out
 
 
-def real_run(ctx, sets, bufsize, kill_at=None, root=None, snapshot=True):
-    """run the sets on the real store under the recorder; returns (recorder, exception or None)"""
+GET = "<get>"
+
+
+def full(R, k):
+    return f"{R}/{k}" if R else k
+
+
+def real_run(ctx, sets, bufsize, kill_at=None, root=None, snapshot=True, R=""):
+    """run the actions on the real store under the recorder; `root` is the (existing) base directory the trace is
+    relative to, the store lives at root/R (R may name directories that do not exist yet) and is opened INSIDE
+    the recorded region.  An action is (key, value) = a set, or (key, GET) = a get (no marker, result ignored).
+    Returns (recorder, exception or None)"""
     from klongpy.db.sys_fn_kvs import KeyValueStorage
     from klongpy.db.helpers import serialize_obj
     rec = Recorder(root, bufsize, kill_at=kill_at, snapshot=snapshot)
     rec.install()
-    store = KeyValueStorage(root)
+    store = None
     err = None
     try:
+        store = KeyValueStorage(os.path.join(root, R) if R else root)
         for k, v in sets:
+            if v == GET:
+                try:
+                    store.get(k)
+                except Exception:                       # noqa: an interrupted key may be unreadable
+                    pass
+                continue
             v = expand(v)
-            rec.marker(f"begin:{wpath(k)}:{serialize_obj(v).hex()}")
+            rec.marker(f"begin:{wpath(full(R, k))}:{serialize_obj(v).hex()}")
             store.set(k, v)
             rec.marker("ret")
     except Exception as e:                             # noqa
         err = e
     finally:
-        store.cache.executor.shutdown(wait=True)
+        if store is not None:
+            store.cache.executor.shutdown(wait=True)
         rec.uninstall()
     if kill_at is not None:
         rec.boundary()          # kill after the last operation
     return rec, err
 
 
-def check_images(ctx, drv, ops_prefix, sets_json, bufsize, scratch, cap, label, big=False):
+def check_images(ctx, drv, ops_prefix, sets_json, bufsize, scratch, cap, label, big=False, R="", extra=None):
     """(c): crash images of the model after this prefix, materialised and read by the real store"""
     if len(ctx.oracle_failures) - getattr(ctx, "_c17_base", 0) >= 6 or len(ctx.oracle_failures) >= 50:
         # failing crash points of this sequence are already in hand; do not enumerate the (exploding)
@@ -799,7 +837,7 @@ def check_images(ctx, drv, ops_prefix, sets_json, bufsize, scratch, cap, label, 
         else:
             idx = sorted(set([0, n - 1] + [ctx.rng.randrange(n) for _ in range(cap)]))
             ctx.bump("prefixes-with-sampled-images")
-        keyw = ",".join(wpath(k) for k in KEYS)
+        keyw = ",".join(wpath(full(R, k)) for k in KEYS)
         reply = drv.ask(f"images idx={','.join(map(str, idx))} keys={keyw}")
         if not reply.startswith("imgs="):
             raise common.Infra("driver: " + reply[:200])
@@ -833,19 +871,24 @@ def check_images(ctx, drv, ops_prefix, sets_json, bufsize, scratch, cap, label, 
             rec = None
         base = os.path.join(scratch, "img")
         materialise(base, img)
-        got = read_store(base, KEYS)
-        case = dict(kind="crash-point", sets=sets_json, bufsize=bufsize, prefix=len(ops_prefix),
+        got = read_store(os.path.join(base, R) if R else base, KEYS)
+        case = dict(extra or {}, kind=(extra or {}).get("kind", "crash-point"), sets=sets_json, bufsize=bufsize,
+                    root=R, prefix=len(ops_prefix),
                     last_op=_short(ops_prefix[-1], 200) if ops_prefix else None, image=_short(imgkey, 400),
                     in_progress=cur)
         ctx.count((tuple(ops_prefix), imgkey))
         ctx.bump("images")
-        for k in KEYS:
-            kind, val, raw = got[k]
+        for k0 in KEYS:
+            kind, val, raw = got[k0]
+            k = full(R, k0)
             # ---- tie: model recover vs the bytes the real cache reads
             if rec is not None and rec.get(k, "missing") != raw:
                 ctx.mismatch("Klong.C17.recover vs FileCache.get_file on a crash image", dict(case, key=k),
                              rec.get(k), raw)
             # ---- property oracle (needs no model: completed sets come from the begin/ret markers)
+            if k in DIRTY and k != cur:
+                ctx.bump("dirty-key-skipped")      # its set was killed and no set of it has completed since
+                continue
             if k == cur:
                 old = done.get(k)
                 new = [o for o in ops_prefix if o.startswith("begin:")][-1].split(":")[2]
@@ -861,7 +904,8 @@ def check_images(ctx, drv, ops_prefix, sets_json, bufsize, scratch, cap, label, 
                 elif raw in HISTORY.get(k, [])[:-1] and raw != done[k]:
                     ctx.oracle_fail("kvs:crash:completed-key-reads-old-value", dict(case, key=k), wants, _short(f"{kind}:{val}"),
                                     "a set that had returned is undone by a crash: the store reads the PREVIOUS value "
-                                    "(the directory-entry update that installs the new file was never synced)")
+                                    "(something the set relied on — a rename, or bytes left by a killed writer — "
+                                    "was never synced)")
                 elif kind == "raises" or val != want:
                     ctx.oracle_fail("kvs:crash:completed-key-corrupt", dict(case, key=k), wants,
                                     f"{_short(f'{kind}:{val}')} raw={raw[:80]} ({len(raw) // 2} bytes)",
@@ -876,71 +920,147 @@ def check_images(ctx, drv, ops_prefix, sets_json, bufsize, scratch, cap, label, 
     return len(seen)
 
 
-def run_sequence(ctx, drv, sets, bufsize, sk, flag, cap, label="seq"):
-    """one seeded sequence of sets: record, compare with the model, enumerate crash images"""
+def explore(ctx, drv, ops, snaps, actions, sets_json, bufsize, sk, flag, eff_buf, cap, label, top, big=False, R="",
+            extra=None, images_from=0):
+    """walk a recorded history (ops, with the real directory snapshot after each) through the model: every set is
+    compared with the model's setOps, the volatile view with the snapshot, and after every operation the crash
+    images are materialised and read by the real store.  Returns the model's WF verdict (None without driver)."""
+    from klongpy.db.helpers import serialize_obj
+    case0 = dict(extra or {}, kind=(extra or {}).get("kind", "set-sequence"), sets=sets_json, bufsize=bufsize, root=R)
+    shorten = lambda l: [_short(o, 200) for o in l]
+    kw = dict(big=big, R=R, extra=extra)
+    if drv is None:
+        for j in range(images_from, len(ops) + 1):
+            check_images(ctx, None, ops[:j], sets_json, bufsize, top, cap, label, **kw)
+        return None
+    drv.ask("new variant=strict")
+    if images_from == 0:
+        check_images(ctx, drv, [], sets_json, bufsize, top, cap, label, **kw)      # before anything
+    todo = [(k, v) for k, v in actions if v != GET]
+    wf = True
+    opening = True
+    for i, o in enumerate(ops):
+        if o.startswith("begin:"):
+            opening = False
+            k, v = todo.pop(0) if todo else (None, None)
+            seg_end = i
+            while seg_end < len(ops) and ops[seg_end] not in ("ret", "kill"):
+                seg_end += 1
+            rops = ops[i:seg_end + 1]
+            if sk is not None and k is not None and rops[-1] == "ret":
+                val = serialize_obj(expand(v)).hex()
+                m = drv.ask(f"setops sk={','.join(sk)} flag={1 if flag else 0} buf={eff_buf} k={wpath(full(R, k))} v={val}")
+                mops = m[4:].split(";") if m.startswith("ops=") else [m]
+                if mops != rops:
+                    ctx.mismatch("Klong.C17.setOps(skeleton) vs recorded system-call trace of KeyValueStorage.set",
+                                 dict(case0, set_key=k), shorten(mops), shorten(rops))
+        elif opening and o != "kill":
+            # FileCache/KeyValueStorage.__init__ are modelled as doing nothing to the file system
+            ctx.mismatch("store open performs file-system operations (the model's open has none)",
+                         dict(case0, op=_short(o, 200)), "no operation before the first set", _short(o, 200))
+        if o == "kill":
+            opening = True      # a new process opens the store again
+        r = drv.ask("op " + o)
+        if not r.startswith("ok "):
+            ctx.mismatch("recorded operation outside the model", dict(case0, op=_short(o, 200)),
+                         "an operation of the model", _short(o, 200))
+            return False
+        f = fields(r)
+        wf = wf and f["good"] == "1"
+        ctx.bump("wf-ops" if f["good"] == "1" else "non-wf-ops")
+        # volatile view of the model vs the real directory after this call (after a kill: nothing was lost)
+        if snaps is not None and snaps[i] is not None and (f["vdirs"], f["vfiles"]) != snaps[i]:
+            ctx.mismatch("Klong.C17.Fs.step volatile view vs real directory", dict(case0, prefix=i + 1, op=_short(o, 200)),
+                         shorten([f["vdirs"], f["vfiles"]]), shorten(snaps[i]))
+        if i + 1 >= images_from:
+            check_images(ctx, drv, ops[:i + 1], sets_json, bufsize, top, cap, label, **kw)
+    return wf
+
+
+def run_sequence(ctx, drv, sets, bufsize, sk, flag, cap, label="seq", R=""):
+    """one seeded sequence of sets on a store at base/R (R = directories that do not exist yet when the store is
+    opened): record, compare with the model, enumerate crash images"""
     from klongpy.db.helpers import serialize_obj
     top = ctx.mkdtemp()
-    root = os.path.join(top, "store")
+    root = os.path.join(top, "base")
     os.makedirs(root)
     sets_json = [[k, v] for k, v in sets]
     ctx._c17_base = len(ctx.oracle_failures)
-    big = any(len(serialize_obj(expand(v))) > 3000 for _, v in sets)
-    shorten = lambda l: [_short(o, 200) for o in l]
+    big = any(len(serialize_obj(expand(v))) > 3000 for _, v in sets if v != GET)
     try:
-        rec, err = real_run(ctx, sets, bufsize, root=root)
-        case0 = dict(kind="set-sequence", sets=sets_json, bufsize=bufsize)
+        rec, err = real_run(ctx, sets, bufsize, root=root, R=R)
+        case0 = dict(kind="set-sequence", sets=sets_json, bufsize=bufsize, root=R)
         if err is not None:
             ctx.oracle_fail(f"kvs:set:raises:{type(err).__name__}", case0, "set succeeds", repr(err))
             return None
         eff_buf = bufsize if bufsize is not None else (rec.default_bufsize or io.DEFAULT_BUFFER_SIZE)
         ops = rec.ops
-        if drv is None:
-            for j in range(len(ops) + 1):
-                check_images(ctx, None, ops[:j], sets_json, bufsize, top, cap, label, big=big)
-            return dict(ops=ops, sets=sets, buf=eff_buf, big=big)
-        drv.ask("new variant=strict")
-        check_images(ctx, drv, [], sets_json, bufsize, top, cap, label, big=big)      # the empty store
-        pos = 0
-        wf = True
-        for si, (k, v) in enumerate(sets):
-            val = serialize_obj(expand(v)).hex()
-            n = ops.index("ret", pos) + 1 if "ret" in ops[pos:] else len(ops)
-            rops = ops[pos:n]
-            if sk is None:
-                mops = rops         # no skeleton (translator failed, already reported): nothing to compare
-            else:
-                m = drv.ask(f"setops sk={','.join(sk)} flag={1 if flag else 0} buf={eff_buf} k={wpath(k)} v={val}")
-                mops = m[4:].split(";") if m.startswith("ops=") else [m]
-            if mops != rops:
-                ctx.mismatch("Klong.C17.setOps(skeleton) vs recorded system-call trace of KeyValueStorage.set",
-                             dict(case0, set_index=si), shorten(mops), shorten(rops))
-            for j, o in enumerate(rops):
-                r = drv.ask("op " + o)
-                if not r.startswith("ok "):
-                    ctx.mismatch("recorded operation outside the model", dict(case0, op=_short(o, 200)),
-                                 "an operation of the model", _short(o, 200))
-                    return dict(ops=ops, sets=sets, buf=eff_buf, big=big)
-                f = fields(r)
-                wf = wf and f["good"] == "1"
-                ctx.bump("wf-ops" if f["good"] == "1" else "non-wf-ops")
-                # volatile view of the model vs the real directory after this call
-                snap = rec.snaps[pos + j]
-                if (f["vdirs"], f["vfiles"]) != snap:
-                    ctx.mismatch("Klong.C17.Fs.step volatile view vs real directory",
-                                 dict(case0, prefix=pos + j + 1, op=_short(o, 200)),
-                                 shorten([f["vdirs"], f["vfiles"]]), shorten(snap))
-                check_images(ctx, drv, ops[:pos + j + 1], sets_json, bufsize, top, cap, label, big=big)
-            pos = n
-        ctx.bump("sequences-wf" if wf else "sequences-not-wf")
+        wf = explore(ctx, drv, ops, rec.snaps, sets, sets_json, bufsize, sk, flag, eff_buf, cap, label, top, big=big, R=R)
+        if wf is not None:
+            ctx.bump("sequences-wf" if wf else "sequences-not-wf")
+        if R:
+            ctx.bump(f"fresh-root-depth:{R.count('/') + 1}")
         if big:
             ctx.bump("sequences-with-large-values")
-            if not wf:
+            if wf is False:
                 # large traces are not sent to the kernel; the compiled model's WF verdict is reported as a broken tie
                 ctx.mismatch("Klong.C17.WF (compiled model) of the recorded trace of a large-value sequence", case0,
                              "WF", "not WF")
-        if len(val) // 2 > eff_buf:
-            ctx.bump("value-larger-than-buffer")
-        return dict(ops=ops, sets=sets, buf=eff_buf, wf=wf, big=big)
+        return dict(ops=ops, sets=[(full(R, k), v) for k, v in sets if v != GET], buf=eff_buf, wf=wf, big=big)
+    finally:
+        shutil.rmtree(top, ignore_errors=True)
+
+
+def kill_history(ctx, drv, sets1, phase2, bufsize, sk, flag, cap, boundaries=None, R=""):
+    """two-crash histories: a real (forked) writer runs sets1 and is killed (os._exit, nothing that reached the
+    kernel is lost) at a boundary inside its LAST set; a new store on the same directory then performs phase2
+    (gets and sets); crash images (power loss) are explored after every operation of the whole history."""
+    top = ctx.mkdtemp()
+    runs = []
+    try:
+        ref = os.path.join(top, "ref")
+        os.makedirs(ref)
+        rec0, err = real_run(ctx, sets1, bufsize, root=ref, R=R)
+        if err is not None:
+            ctx.oracle_fail(f"kvs:set:raises:{type(err).__name__}", dict(kind="kill-history", sets=sets1), "set succeeds", repr(err))
+            return runs
+        ops1, snaps1 = rec0.ops, rec0.snaps
+        eff_buf = bufsize if bufsize is not None else (rec0.default_bufsize or io.DEFAULT_BUFFER_SIZE)
+        last_begin = max(i for i, o in enumerate(ops1) if o.startswith("begin:"))
+        bs = list(range(last_begin + 1, len(ops1)))
+        if boundaries is not None:
+            bs = [b for b in bs if b in boundaries]
+        for b in bs:
+            ctx._c17_base = len(ctx.oracle_failures)
+            base = os.path.join(top, f"h{b}")
+            os.makedirs(base)
+            pid = os.fork()
+            if pid == 0:
+                try:
+                    real_run(ctx, sets1, bufsize, kill_at=b, root=base, snapshot=False, R=R)
+                finally:
+                    os._exit(18)
+            _, status = os.waitpid(pid, 0)
+            extra = dict(kind="kill-history", sets1=[[k, v] for k, v in sets1], phase2=[[k, v] for k, v in phase2],
+                         killed_before=_short(ops1[b], 120), boundary=b)
+            if os.waitstatus_to_exitcode(status) != 17:
+                ctx.mismatch("process-kill child did not reach the boundary", extra, 17, os.waitstatus_to_exitcode(status))
+                continue
+            snap_kill = listing(base)
+            rec2, err2 = real_run(ctx, phase2, bufsize, root=base, R=R)
+            if err2 is not None:
+                ctx.oracle_fail(f"kvs:set-after-kill:raises:{type(err2).__name__}", extra, "set succeeds", repr(err2))
+                continue
+            ops = ops1[:b] + ["kill"] + rec2.ops
+            snaps = snaps1[:b] + [snap_kill] + rec2.snaps
+            actions = list(sets1) + list(phase2)
+            wf = explore(ctx, drv, ops, snaps, actions, extra["sets1"] + [["<kill>", b]] + extra["phase2"], bufsize, sk, flag,
+                         eff_buf, cap, "kill-history", top, R=R, extra=extra, images_from=b + 1)
+            ctx.bump("kill-histories")
+            ctx.bump("kill-histories-wf" if wf else "kill-histories-not-wf")
+            runs.append(dict(ops=ops, sets=None, buf=eff_buf, wf=wf, big=False))
+            shutil.rmtree(base, ignore_errors=True)
+        return runs
     finally:
         shutil.rmtree(top, ignore_errors=True)
 
@@ -960,6 +1080,8 @@ def lean_op(o):
         return f".write {unp(p[1])} {lean_bytes(p[2])}"
     if p[0] == "ret":
         return ".ret"
+    if p[0] == "kill":
+        return ".kill"
     if p[0] == "rename" and len(p) == 3 and all(x.replace(".", "").replace("-", "0").isdigit() for x in p[1:]):
         return f".rename {unp(p[1])} {unp(p[2])}"
     name = dict(mkdir="mkdir", creat="creatTrunc", fsync="fsyncFile", fsyncdir="fsyncDir", close="close", unlink="unlink").get(p[0])
@@ -984,13 +1106,15 @@ def kernel_obligations(ctx, runs, sk, flag):
         # the extracted skeleton is the one `fixed_write_path_wf` / `kvs_crash_safe` are proved for
         names[len(lines) + 1] = "extracted skeleton of _write_file = skFixed and use_fsync = true (scope of kvs_crash_safe)"
         lines.append(f"example : (({skl} : List Sk), {fl}) = (skFixed, true) := by decide")
-    allkeys = sorted({k for r in runs for k, _ in r["sets"]})
+    allkeys = sorted({k for r in runs if r.get("sets") for k, _ in r["sets"]})
     names[len(lines) + 1] = "ValidKeys (keys used by this run) (hypothesis of kvs_crash_safe)"
     lines.append(f"example : ValidKeys [{', '.join(lpath(k) for k in allkeys)}] := by decide")
     for i, r in enumerate(runs):
         lops = [lean_op(o) for o in r["ops"]]
-        sets = "[" + ", ".join(f"({lpath(k)}, {lean_bytes(serialize_obj(expand(v)).hex())})" for k, v in r["sets"]) + "]"
-        model = f"traceOf .strict {skl} {fl} {r['buf']} init {sets}" if sk is not None else None
+        model = None
+        if sk is not None and r.get("sets") is not None:
+            sets = "[" + ", ".join(f"({lpath(k)}, {lean_bytes(serialize_obj(expand(v)).hex())})" for k, v in r["sets"]) + "]"
+            model = f"traceOf .strict {skl} {fl} {r['buf']} init {sets}"
         if None in lops:
             ctx.obligation(f"run{i}: recorded trace is expressible in the model", False,
                            str([o for o, l in zip(r["ops"], lops) if l is None][:3]))
@@ -1001,7 +1125,8 @@ def kernel_obligations(ctx, runs, sk, flag):
                          ("WF .strict (traceOf skeleton sets)", f"WF .strict ({model}) = true"),
                          ("crash_safety instantiated at the recorded trace",
                           f"∀ pre suf, ({rec} : List Op) = pre ++ suf → ∀ c ∈ crashAfter .strict pre, "
-                          f"∀ k, inProgress pre ≠ some k → k ∉ scratchOf pre → recover c k = lastCompleted pre k")):
+                          f"∀ k, inProgress pre ≠ some k → k ∉ scratchOf pre → k ∉ dirtyOf pre → "
+                          f"recover c k = lastCompleted pre k")):
             if model is None and "traceOf" in nm:
                 continue
             names[len(lines) + 1] = f"run{i}: {nm}"
@@ -1200,9 +1325,12 @@ def run(ctx):
     try:
         cdir = common.CORPUS / "C17"
         plans = []
+        c_root = {}
         if cdir.exists():
             for p in sorted(cdir.glob("*.json")):
                 c = json.loads(p.read_text())
+                if c.get("root"):
+                    c_root[len(plans)] = c["root"]
                 plans.append(([(k, v) for k, v in c["sets"]], c.get("bufsize")))
         nseq = 10 if quick else 40
         for s in range(nseq):
@@ -1217,15 +1345,36 @@ def run(ctx):
             if s % 2:
                 sets.append((ctx.rng.choice(keys), gen_big_value(ctx.rng)))
             plans.append((sets, None))
-        for sets, bufsize in plans:
-            r = run_sequence(ctx, drv, sets, bufsize, model_sk, bool(flag), cap)
+        ROOTS = ["r1", "r1/r2", "r1/r2/store"]          # store roots whose chain does not exist when the store is opened
+        for i, (sets, bufsize) in enumerate(plans):
+            R = c_root.get(i, "")
+            r = run_sequence(ctx, drv, sets, bufsize, model_sk, bool(flag), cap, R=R)
             if r is not None:
                 runs.append(r)
                 if len(ctx.samples) < 4:
-                    ctx.sample(dict(sets=[[k, v] for k, v in sets], bufsize=bufsize, trace=r["ops"][:12]))
+                    ctx.sample(dict(sets=[[k, v] for k, v in sets], bufsize=bufsize, root=R, trace=r["ops"][:12]))
+        # fresh store roots (depth 1-3 of missing directories): the open of the store is part of the trace
+        for d, R in enumerate(ROOTS if quick else ROOTS * 3):
+            keys = ctx.rng.choice([["a", "p/a"], ["a", "b", "q/r/a"], KEYS[:5]])
+            sets = gen_sets(ctx.rng, ctx.rng.randrange(1, 4), keys)
+            r = run_sequence(ctx, drv, sets, 16 if d % 2 else None, model_sk, bool(flag), cap, R=R)
+            if r is not None:
+                runs.append(r)
+        # histories chaining a process kill (no loss) and a later power loss: a completed set of k, a second set
+        # of k killed inside, then a NEW store: get k, set k to the same value (and another key)
+        for h in range(2 if quick else 8):
+            keys = ctx.rng.choice([["a", "b"], ["p/a", "a"], ["q/r/a", "b"]])
+            k = keys[0]
+            v1, v2 = gen_value(ctx.rng), gen_value(ctx.rng)
+            sets1 = gen_sets(ctx.rng, ctx.rng.randrange(0, 2), keys) + [(k, v1), (k, v2)]
+            phase2 = [(k, GET), (k, v2)] + gen_sets(ctx.rng, ctx.rng.randrange(0, 2), keys[1:])
+            runs += kill_history(ctx, drv, sets1, phase2, 16 if h % 2 else None, model_sk, bool(flag), cap,
+                                 R=ctx.rng.choice(["", "r1"]))
         small = [r for r in runs if not r.get("big")]
         if small:
-            kernel_obligations(ctx, small if quick else small[:16], sk, bool(flag))
+            regular = [r for r in small if r.get("sets") is not None]
+            composite = [r for r in small if r.get("sets") is None]
+            kernel_obligations(ctx, regular[:12 if quick else 16] + composite[:4 if quick else 8], sk, bool(flag))
         if not quick:
             for i in range(4):
                 keys = ctx.rng.choice([KEYS, ["a", "q/r/a", "q/r/b", "p/a"]])
@@ -1240,11 +1389,16 @@ def replay(ctx, case):
     sk, flag = setup(ctx)
     drv = Driver("c17") if getattr(ctx, "driver_ok", True) else None
     try:
-        sets = [(k, v) for k, v in c["sets"]]
-        if c.get("kind") == "process-kill":
-            kill_runs(ctx, drv, sets, c.get("bufsize"), "replay")
+        if c.get("kind") == "kill-history":
+            rs = kill_history(ctx, drv, [(k, v) for k, v in c["sets1"]], [(k, v) for k, v in c["phase2"]],
+                              c.get("bufsize"), sk, bool(flag), 100000, boundaries=[c["boundary"]], R=c.get("root", ""))
+            if rs:
+                kernel_obligations(ctx, rs, sk, bool(flag))
+        elif c.get("kind") == "process-kill":
+            kill_runs(ctx, drv, [(k, v) for k, v in c["sets"]], c.get("bufsize"), "replay")
         else:
-            r = run_sequence(ctx, drv, sets, c.get("bufsize"), sk, bool(flag), 100000, "replay")
+            sets = [(k, v) for k, v in c["sets"]]
+            r = run_sequence(ctx, drv, sets, c.get("bufsize"), sk, bool(flag), 100000, "replay", R=c.get("root", ""))
             if r is not None and not r.get("big"):
                 kernel_obligations(ctx, [r], sk, bool(flag))
     finally:
